@@ -36,6 +36,7 @@ TWIN_FIX = sorted(k for k, v in _SURVEY.items() if v.get("opens") and (v.get("ce
 def gen(seed: int, tier: str, idx=None):
     rng0 = substream(seed, "swarm")
     cfg = {"property": PROPERTY, "aspects": ["grid", "names", "look", "geom"], "profile": "geometry", "_mix": {"s": 2, "i": 2}, "_long": False}
+    cfg["live_geometry_after_save"] = substream(seed, "livegeom").random() < 0.5
     g = Gen(seed, tier, cfg)
     rng = g.rng
     if rng0.random() < 0.4:
@@ -136,6 +137,7 @@ def set_sizes_on_reopened(g, rng) -> None:
 
 def setup(sim: Sim) -> None:
     sim.cfg.setdefault("_reopen_checks", []).append(ops_geom.reopen_check)
+    sim.save_hooks.append(ops_geom.live_geometry_hook)
 
 
 def nontrivial(result: dict) -> bool:
